@@ -106,6 +106,9 @@ def table2(ctx) -> List[Ob]:
         out.append(ok("TABLE-2", fname, f"predicate reads {TABLES[role]}", f"{um.relpath}:1", f"{fname}(opname) == opname in {TABLES[role]}", nontrivial=False))
     want = {"cond": 2, "uncond": 1, "term": 0}
     seen_roles = set()
+    bparam = fb.params[0].arg if fb.params else "bc"
+    iv_loops = [lp for lp in A.walk_no_nested(fb.node) if isinstance(lp, ast.For) and A.unparse(lp.iter) == bparam and isinstance(lp.target, ast.Name)]
+    IV = iv_loops[0].target.id if iv_loops else "inst"
     for n in A.walk_no_nested(fb.node):
         if not isinstance(n, ast.If):
             continue
@@ -123,20 +126,20 @@ def table2(ctx) -> List[Ob]:
             if len(tup.elts) != want[role]:
                 out.append(bad("TABLE-2", fb.qualname, key, where, f"the {role} arm records {len(tup.elts)} target(s), expected {want[role]}"))
                 continue
-            if A.unparse(calls[0].args[0]) != "inst.offset":
+            if A.unparse(calls[0].args[0]) != f"{IV}.offset":
                 out.append(bad("TABLE-2", fb.qualname, key, where, f"the jump is recorded under {A.unparse(calls[0].args[0])}, not under the instruction's own offset"))
                 continue
             if role == "cond":
                 a, b = tup.elts
-                ft = isinstance(a, ast.Call) and (A.dotted(a.func) or "").split(".")[-1] == "_next_inst_offset" and A.unparse(a.args[0]) == "inst.offset"
-                jt = A.unparse(b) == "inst.argval"
+                ft = isinstance(a, ast.Call) and (A.dotted(a.func) or "").split(".")[-1] == "_next_inst_offset" and A.unparse(a.args[0]) == f"{IV}.offset"
+                jt = A.unparse(b) == f"{IV}.argval"
                 if ft and jt:
                     out.append(ok("TABLE-2", fb.qualname, key, where, "targets = (fall-through, jump target) in that order"))
                 else:
-                    out.append(bad("TABLE-2", fb.qualname, key, where, f"conditional targets are ({A.unparse(a)}, {A.unparse(b)}); expected (fall-through offset, inst.argval): first successor must be the fall-through"))
+                    out.append(bad("TABLE-2", fb.qualname, key, where, f"conditional targets are ({A.unparse(a)}, {A.unparse(b)}); expected (fall-through offset, <instruction>.argval): first successor must be the fall-through"))
             elif role == "uncond":
-                if A.unparse(tup.elts[0]) == "inst.argval":
-                    out.append(ok("TABLE-2", fb.qualname, key, where, "single target inst.argval"))
+                if A.unparse(tup.elts[0]) == f"{IV}.argval":
+                    out.append(ok("TABLE-2", fb.qualname, key, where, "single target <instruction>.argval"))
                 else:
                     out.append(bad("TABLE-2", fb.qualname, key, where, f"unconditional jump records {A.unparse(tup.elts[0])} instead of inst.argval"))
             else:
@@ -180,7 +183,11 @@ def table3(ctx) -> List[Ob]:
         raise AnalysisError("FlowInfo.build_basicblocks not found")
     key = "terminator lookup"
     txt = A.unparse(bb.node)
-    if "_prev_inst_offset(end)" in txt and "not in self.jump_insts" in txt and "names[end]" in txt:
+    zl = [lp for lp in A.walk_no_nested(bb.node) if isinstance(lp, ast.For) and isinstance(lp.target, ast.Tuple) and len(lp.target.elts) == 2 and "zip(" in A.unparse(lp.iter)]
+    E = A.unparse(zl[0].target.elts[1]) if zl else "end"
+    nm = [A.unparse(s_.targets[0]) for s_ in A.walk_no_nested(bb.node) if isinstance(s_, ast.Assign) and isinstance(s_.value, ast.DictComp)]
+    NM = nm[0] if nm else "names"
+    if f"_prev_inst_offset({E})" in txt and ("not in self.jump_insts" in txt or " in self.jump_insts" in txt) and f"{NM}[{E}]" in txt:
         out.append(ok("TABLE-3", bb.qualname, key, ctx.where(bb), "term_offset = end-2; recorded jump else implicit fall-through to the next block"))
     else:
         out.append(unresolved("TABLE-3", bb.qualname, key, ctx.where(bb), "terminator lookup not recognised"))
@@ -271,6 +278,11 @@ def table5(ctx) -> List[Ob]:
     return out
 
 
+def _names_var(bb) -> str:
+    nm = [A.unparse(s_.targets[0]) for s_ in A.walk_no_nested(bb.node) if isinstance(s_, ast.Assign) and isinstance(s_.value, ast.DictComp)]
+    return nm[0] if nm else "names"
+
+
 @rule("TABLE-6", 2, "a block's successors are the recorded targets of its terminator when one is recorded, else the implicit fall-through to the next block - nothing else")
 def table6(ctx) -> List[Ob]:
     out: List[Ob] = []
@@ -298,7 +310,7 @@ def table6(ctx) -> List[Ob]:
         if "jump_insts[" in txt and member and ((" not in " in member[0][0]) != member[0][1]) and len(guards) == 1:
             seen.add("recorded")
             out.append(ok("TABLE-6", bb.qualname, key, where, "recorded targets of the terminator, in order"))
-        elif txt.startswith("(names[") and member and ((" not in " in member[0][0]) == member[0][1]) and len(guards) == 1:
+        elif txt.startswith(f"({_names_var(bb)}[") and member and ((" not in " in member[0][0]) == member[0][1]) and len(guards) == 1:
             seen.add("implicit")
             out.append(ok("TABLE-6", bb.qualname, key, where, "implicit fall-through to the next block when no jump is recorded"))
         else:
